@@ -322,7 +322,10 @@ class Module:
         self.inlined_helpers = inline_single_use_helpers(self.tree)
         from .normalise import inline_helpers_v2
         self.inlined_helpers += inline_helpers_v2(self.tree)
-        from .normalise import eliminate_copies, void_early_returns
+        from .normalise import eliminate_copies, void_early_returns, unroll_literal_loops
+        unroll_literal_loops(self.tree)
+        from .normalise import constant_attr_access
+        constant_attr_access(self.tree)
         eliminate_copies(self.tree)
         void_early_returns(self.tree)
         filtered_loops_to_if(self.tree)
